@@ -30,9 +30,11 @@ fn gen_feature(rng: &mut Rng) -> String {
 }
 
 fn gen_surface(rng: &mut Rng) -> String {
-    match rng.below(12) {
+    match rng.below(14) {
         0 => "EOS".to_string(),
         1 => " ".to_string(),
+        // an empty surface (a sentence whose surfaces are all empty has no text and is dropped)
+        12 | 13 => String::new(),
         _ => {
             let n = 1 + rng.usize(4);
             (0..n).map(|_| *rng.pick(ALPHABET)).collect()
@@ -113,8 +115,10 @@ impl Scenario for CorpusScenario {
                 0 => 0, // token-less sentence
                 _ => 1 + rng.usize(5),
             };
+            let textless = rng.chance(1, 10); // tokens, but no text: dropped like a token-less one
             for _ in 0..n_tok {
-                text.push_str(&format!("{}\t{}\n", gen_surface(rng), gen_feature(rng)));
+                let surface = if textless { String::new() } else { gen_surface(rng) };
+                text.push_str(&format!("{}\t{}\n", surface, gen_feature(rng)));
             }
             text.push_str("EOS\n");
         }
